@@ -58,13 +58,19 @@ def run(tier):
              'relay side: the downstream goes silent at connect, banner, EHLO/LHLO (and HELO fallback), MAIL, each RCPT, DATA and '
              'end-of-data (per recipient for LMTP), PIPELINING on/off, SMTP/LMTP, 1-2 recipients, with and without an earlier '
              'rejected recipient; a pipe child that outlives its timeout (1-3 recipients, the first, a middle or the last one stalling, both per-recipient modes); '
-             'non-trivial = at least one byte trickled during the stall, or a relay-side stall',
+             'TLS handshakes over a real socketpair: STARTTLS answered 220 and then silence / the beginning of a TLS record, an '
+             'immediately-encrypted listener whose client never speaks, a relay with tls_immediately or STARTTLS against a peer that '
+             'never handshakes; non-trivial = at least one byte trickled during the stall, or a relay-side stall',
         trigger=lambda tr: tr['cfg'].get('npieces', 0) > 0 or 'stage' in tr['cfg'],
         assumptions=['virtual time: every gevent Timeout is driven by harness/vt.py, the clock is advanced to each trickle '
-                     'instant and then to the timer deadlines'],
+                     'instant and then to the timer deadlines',
+                     'a session that times out in the middle of a TLS handshake is judged on the bound only: once the handshake has '
+                     'begun there is no channel left on which a 421 could be sent'],
         trusted=['TLC 1.8', 'CommunityModules Json/IOUtils', 'harness/sdrv.py', 'harness/vt.py'],
         wd=wd, clause_filter=lambda c: c.startswith('C14_'),
-        extras=[{'driver': 'c14r', 'module': 'Trace_Relay', 'cfg': 'Trace_Relay.cfg', 'canaries': [canary_relay_late, canary_relay_hung]}])
+        extras=[{'driver': 'c14r', 'module': 'Trace_Relay', 'cfg': 'Trace_Relay.cfg', 'canaries': [canary_relay_late, canary_relay_hung]},
+                {'driver': 'c14t', 'module': 'Trace_SmtpServer', 'cfg': 'Trace_SmtpServer.cfg', 'args': ('server',)},
+                {'driver': 'c14t', 'module': 'Trace_Relay', 'cfg': 'Trace_Relay.cfg', 'args': ('relay',)}])
 
 
 def replay(path):
